@@ -19,9 +19,9 @@ KEEP_PREFIX = 1
 
 def generate(rng, tier):
     cases = []
-    rl = sysgen.quick_roms()[:3] if tier == 'quick' else sysgen.quick_roms()
+    rl = sysgen.quick_roms()[:3] if tier == 'quick' else sysgen.roms()[::6]
     n = 0
-    reps = 2 if tier == 'quick' else 10
+    reps = 2 if tier == 'quick' else 6
     for r in rl:
         for _ in range(reps):
             lines = ['gb.new 0 %s 1 %d' % (sysgen.enc(r), rng.randrange(2)), 'gb.cyc 0 %d' % rng.randrange(0, 40000), 'gb.obs 0',
